@@ -19,6 +19,8 @@ declare -A DEST=( [C01-a]=tests/seed_demo.rs [C03-a]=tests/seed_c03_demo.rs [C05
  [C11-b]=tests/c11_demo.rs [C18-b]=tests/seed_c18b.rs [C14-b]=crates/polytune-server-core/tests/c14_b_demo.rs
  [C16-b]=crates/polytune-server-core/tests/c16_b_demo.rs
  [C02-b]=tests/seed_c02b_demo.rs [C06-b]=tests/c06b_demo.rs [C07-b]=tests/c07b_demo.rs [C20-b]=tests/c20_demo.rs
+ [C13-c]=crates/polytune-server-core/tests/seed_c13c.rs [C15-c]=crates/polytune-server-core/tests/c15_cancel_executing.rs
+ [C17-c]=crates/polytune-server-core/tests/c17_demo.rs [C12-c]=tests/c12c_demo.rs
  [C20-a]=MOD:src/transpose/seed_demo.rs:src/transpose.rs:seed_demo )
 names=${@:-$(ls -d /verif/seeded/*/ | xargs -n1 basename)}
 for s in $names; do
